@@ -10,6 +10,10 @@ TABLE = {
     'C15': ('harness.c15', lambda m, tier, only: m.main('C15', tier, only)),
     'C03': ('harness.c03', lambda m, tier, only: m.main('C03', tier, only)),
     'C01': ('harness.c01', lambda m, tier, only: m.main('C01', tier, only)),
+    'C04': ('harness.c01', lambda m, tier, only: m.main('C04', tier, only)),
+    'C05': ('harness.c01', lambda m, tier, only: m.main('C05', tier, only)),
+    'C09': ('harness.c01', lambda m, tier, only: m.main('C09', tier, only)),
+    'C11': ('harness.c01', lambda m, tier, only: m.main('C11', tier, only)),
     'C20': ('harness.c01', lambda m, tier, only: m.main('C20', tier, only)),
     'C07': ('harness.c07', lambda m, tier, only: m.main('C07', tier, only)),
 }
